@@ -366,7 +366,11 @@ impl Chip126x {
                 self.raise(IRQ_TIMEOUT);
                 self.mode = Mode126::StbyRc;
             }
-            (Mode126::RxSingle | Mode126::RxCont | Mode126::RxDuty { .. }, "done" | "crc-error") => {
+            (Mode126::Tx, "timeout+done") => {
+                self.raise(IRQ_TX_DONE | IRQ_TIMEOUT);
+                self.mode = Mode126::StbyRc;
+            }
+            (Mode126::RxSingle | Mode126::RxCont | Mode126::RxDuty { .. }, "done" | "crc-error" | "timeout+done") => {
                 let base = self.rx_base as usize;
                 for (i, b) in rx_payload.iter().enumerate() {
                     self.buffer[(base + i) & 0xFF] = *b;
@@ -379,10 +383,31 @@ impl Chip126x {
                 if ev == "crc-error" {
                     f |= IRQ_CRC_ERR;
                 }
+                if ev == "timeout+done" && self.mode != Mode126::RxCont {
+                    // the RX timer is not stopped by RxDone (datasheet 15.3): both latched
+                    f |= IRQ_TIMEOUT;
+                }
                 self.raise(f);
                 if self.mode != Mode126::RxCont {
                     self.mode = Mode126::StbyRc;
                 }
+            }
+            // a timeout that fires after the modem has raised informational flags, all latched
+            // before the host reads the status (no timeout in continuous mode)
+            (Mode126::RxSingle | Mode126::RxDuty { .. }, "preamble+timeout") => {
+                self.raise(IRQ_PREAMBLE | IRQ_TIMEOUT);
+                self.mode = Mode126::StbyRc;
+            }
+            (Mode126::RxSingle | Mode126::RxDuty { .. }, "header-valid+timeout") => {
+                self.raise(IRQ_PREAMBLE | IRQ_SYNC | IRQ_HEADER_VALID | IRQ_TIMEOUT);
+                self.mode = Mode126::StbyRc;
+            }
+            (Mode126::RxSingle | Mode126::RxDuty { .. }, "header-error+timeout") => {
+                self.raise(IRQ_PREAMBLE | IRQ_SYNC | IRQ_HEADER_ERR | IRQ_TIMEOUT);
+                self.mode = Mode126::StbyRc;
+            }
+            (Mode126::RxSingle | Mode126::RxCont | Mode126::RxDuty { .. }, "header-valid") => {
+                self.raise(IRQ_PREAMBLE | IRQ_SYNC | IRQ_HEADER_VALID);
             }
             (Mode126::RxSingle | Mode126::RxDuty { .. }, "timeout") => {
                 self.raise(IRQ_TIMEOUT);
